@@ -1167,6 +1167,9 @@ func (e *Exec) doReturn(st *State, fr *Frame, res []Value, pos token.Pos) ([]*St
 		if caller.panicking {
 			return e.unwind(st, pos)
 		}
+		if caller.recovered {
+			return e.resumeRecovered(st, caller, pos)
+		}
 	case 2:
 		caller.pc++
 	case 3:
@@ -1185,6 +1188,30 @@ func (e *Exec) doPanic(st *State, pos token.Pos) ([]*State, bool) {
 	}
 	st.top().panicking = true
 	return e.unwind(st, pos)
+}
+
+// resumeRecovered continues a frame whose panic was recovered: remaining
+// deferred calls run, then the function returns through its Recover block
+// (named results keep their current values; otherwise zero values).
+func (e *Exec) resumeRecovered(st *State, fr *Frame, pos token.Pos) ([]*State, bool) {
+	if len(fr.defers) > 0 {
+		d := fr.defers[len(fr.defers)-1]
+		fr.defers = fr.defers[:len(fr.defers)-1]
+		return e.execDeferred(st, fr, d)
+	}
+	fr.recovered = false
+	if rb := fr.fn.Recover; rb != nil {
+		fr.prev = fr.block
+		fr.block = rb
+		fr.pc = 0
+		return []*State{st}, false
+	}
+	var res []Value
+	rs := fr.fn.Signature.Results()
+	for i := 0; i < rs.Len(); i++ {
+		res = append(res, zeroValue(rs.At(i).Type()))
+	}
+	return e.doReturn(st, fr, res, pos)
 }
 
 // unwind runs deferred calls of panicking frames, innermost first.
